@@ -47,7 +47,7 @@ func writeEvidence(p *Prop, tier string, seed uint64, results []*subResult, viol
 		sort.Strings(sigs)
 		subs = append(subs, map[string]any{
 			"harness": r.sub.Pkg + "/" + r.sub.Harness, "config": r.sub.Config, "runs": r.runs, "steps": r.steps,
-			"context_switches": r.switches, "runs_capped_discarded": r.capped, "distinct_executions": r.distinct,
+			"context_switches": r.switches, "runs_step_capped": r.capped, "distinct_executions": r.distinct,
 			"distinct_nontrivial_event_logs": r.distLogs, "failed_runs": r.failed, "failure_signatures": sigs, "wall_s": r.wall,
 			"simulated_time_s": r.simTime.Seconds(),
 		})
@@ -89,7 +89,7 @@ func writeEvidence(p *Prop, tier string, seed uint64, results []*subResult, viol
 			"simulated_time_s":       float64(simNs) / 1e9,
 			"distinct_executions":    distinct,
 			"nontrivial_runs":        nontriv,
-			"runs_discarded_stepcap": capped,
+			"runs_step_capped": capped,
 			"runs_with_leaked_tasks": leaked,
 			"failed_runs":            failed,
 			"faults_injected":        faults,
